@@ -8,7 +8,6 @@ import Mathlib.Algebra.Order.Ring.Abs
 import Mathlib.Algebra.Order.Ring.Rat
 import Mathlib.Algebra.Star.Rat
 import Mathlib.Tactic.Ring
-import Mathlib.Tactic.FieldSimp
 import Mathlib.Tactic.NormNum
 /-!
 C05, pure matrix algebra behind the linear-algebra wrappers (pinv, polar, QR phase fix, blockwise expm / eig).
